@@ -174,11 +174,76 @@ func readerMain(rc *RunCtx) {
 	kill := withFaults && st.Bool(1, 6)
 	env.blocked, env.gone = map[int]time.Time{}, map[int]time.Time{}
 	simrt.GoNamed("hang-watchdog", func() { env.watchHangs(nusers) })
+	usersLeft := nusers // the racing reader goes on while they do
+	if st.Bool(1, 2) {
+		// a reader that opens on whatever piece is being hashed, at that
+		// very step, and reads once: the first request of a fresh reader
+		// crosses the completion of its piece
+		join.n++
+		simrt.GoNamed("racing-reader", func() {
+			defer join.Done()
+			for k := 0; k < 30 && usersLeft > 0 && !w.stopped && !env.killed && !rc.Failed(); k++ {
+				target := -1
+				if !simrt.AwaitStep(func() bool {
+					for j := 0; j < min(spec.Geo.NPieces, 64); j++ {
+						if t.Pieces.SimState(j) == 2 {
+							target = j
+							return true
+						}
+					}
+					return false
+				}, 5*time.Second) {
+					continue
+				}
+				simrt.Probe("reader-opened-on-a-piece-being-hashed")
+				o := int64(target) * spec.Geo.PieceSize
+				n := min(spec.Geo.Length-o, 1000)
+				ctx, cancel := context.WithCancel(context.Background())
+				rd := t.NewReader(ctx, o, n)
+				buf := make([]byte, n)
+				got := 0
+				finished := false
+				simrt.GoNamed("racing-reader-watch", func() {
+					// the piece is verified (or was, and is being fetched
+					// again from the honest seeds): the read returns
+					limit := time.Now().Add(300 * time.Second)
+					for !finished && !w.stopped && !env.killed && (env.faultsOn || time.Now().Before(limit)) {
+						simrt.Sleep(time.Second)
+						if env.faultsOn {
+							limit = time.Now().Add(300 * time.Second)
+						}
+					}
+					if !finished && !w.stopped && !env.killed && !rc.Failed() {
+						rc.Fail("C02", "liveness", "fresh-reader-stalled", "a reader opened on piece %d while it was being hashed is still blocked in its first read 300 s after faults stopped (piece complete now: %v), with an honest unchoking seed connected", target, t.Pieces.Complete(uint32(target)))
+						rc.S.Abort("a fresh reader stalls")
+					}
+				})
+				for got < int(n) {
+					m, err := rd.Read(buf[got:])
+					got += m
+					if err != nil {
+						break
+					}
+					if m == 0 {
+						simrt.Sleep(20 * time.Millisecond)
+					}
+				}
+				finished = true
+				if got > 0 && !bytes.Equal(buf[:got], spec.Bytes(o, int64(got))) {
+					rc.Fail("C02", "content", "racing-reader", "a reader opened on piece %d while it was being hashed returned bytes that are not the torrent's", target)
+				}
+				cancel()
+				rd.Close()
+				simrt.Sleep(time.Duration(st.Choice(2000)) * time.Millisecond)
+			}
+		})
+	}
 	for u := 0; u < nusers; u++ {
 		u := u
 		kind := st.Weighted(3, 2, 2)
 		simrt.GoNamed(fmt.Sprintf("user%d", u), func() {
 			defer join.Done()
+			defer func() { usersLeft-- }()
 			switch kind {
 			case 0:
 				env.rawUser(u, withFaults)
@@ -336,11 +401,26 @@ func (e *readerEnv) rawUser(u int, withFaults bool) {
 		size := simrt.Pick(st, 4096, 1, 100, 16384, 32768, int(spec.Geo.PieceSize)*2+7)
 		buf := make([]byte, size)
 		if pos < length && st.Bool(1, 4) {
-			// aimed: read at the step at which the piece under the cursor is
-			// being hashed - request and completion cross
-			pi := int((off + pos) / spec.Geo.PieceSize)
-			if simrt.AwaitStep(func() bool { return e.t.Pieces.SimState(pi) == 2 }, time.Duration(1+st.Choice(10))*time.Second) {
-				simrt.Probe("read-aimed-at-a-piece-being-hashed")
+			// aimed: jump, at the step at which some piece of the range is
+			// being hashed (a prefetched one, or one another user asked for),
+			// to that piece and read it - the reader's first request for it
+			// and its completion cross
+			lo, hi := int(off/spec.Geo.PieceSize), int((off+length-1)/spec.Geo.PieceSize)
+			target := -1
+			if simrt.AwaitStep(func() bool {
+				for j := lo; j <= hi; j++ {
+					if e.t.Pieces.SimState(j) == 2 {
+						target = j
+						return true
+					}
+				}
+				return false
+			}, time.Duration(1+st.Choice(10))*time.Second) {
+				to := max(int64(target)*spec.Geo.PieceSize-off, 0)
+				if got, err := r.Seek(to, io.SeekStart); err == nil && got == to {
+					pos = to
+					simrt.Probe("read-aimed-at-a-piece-being-hashed")
+				}
 			}
 		}
 		deadline := time.Now().Add(e.liveBound(pos, length))
